@@ -1,4 +1,5 @@
 import PokerVerif.Lemmas.TBClosed
+import PokerVerif.Lemmas.TBLifeCycle
 import PokerVerif.Lemmas.TBBasic
 /-!
 # C07 — Table status follows its life cycle; one hand at a time; hands are numbered
@@ -158,6 +159,68 @@ def exTable : State :=
 
 example : (gateFire exTable (some 0) true).2 = .opened ∧ (gateFire exTable (some 0) true).1.gameCount = 1 ∧
     (gateFire (close exTable) (some 0) true).2 = .nothing := by decide
+
+-- ---------------------------------------------------------------- the life cycle as a whole (`Lemmas/TBLifeCycle`)
+
+/-- **C07 — the status only ever moves along the life cycle, one event at a time.**  For every state that holds a hand
+whenever its status says so (`LCInv`, an invariant — see `C07_life_cycle`) and every one of the 19 event kinds other than
+an external pause / close, coming when the engine produces it (`Timely`: the back end closes a hand that is being played,
+the continue step follows the settlement): the status afterwards is the status before, or its successor
+created / balancing / pausing / standby → opened → playing → settled → standby → (opened | pausing) (`lcNext`; the gate's
+callback takes the two steps → opened → playing under one hold of the lock, the continue step without an interval the two
+steps settled → standby → pausing). -/
+theorem C07_life_cycle_step (s : State) (e : Event) (hi : LCInv s) (ht : Timely s e) :
+    lcNext s.status (step s e).status = true ∧ LCInv (step s e) :=
+  step_lifeCycle s e hi ht
+
+/-- **C07 — … along every history of a table left to itself, of any length, from `CreateTable` on**: whatever membership
+calls, top-ups, level changes, gate set-ups, signals, firings, retry turns, settlements and continue steps follow one
+another, each status is the previous one or its successor in the cycle. -/
+theorem C07_life_cycle (cfg : Meta) (b : Blind) (evs : List Event) (ht : AllTimely (create cfg b) evs) :
+    ∀ pre e post, evs = pre ++ e :: post →
+      lcNext (run (create cfg b) pre).status (run (create cfg b) (pre ++ [e])).status = true :=
+  (run_lifeCycle (create cfg b) evs (create_lcInv cfg b) ht).2
+
+/-- **C07 — calls that are not part of the cycle never move the status**: arrivals, sit-ins, top-ups, departures, batch
+updates, level changes, release, start, the gate's set-up and signals, the auto-join completion. -/
+theorem C07_status_moved_by_the_cycle_only (s : State) :
+    (∀ j ch, (reserve s j ch).1.status = s.status) ∧ (∀ id, (join s id).1.status = s.status) ∧
+    (∀ id c, (redeem s id c).1.status = s.status) ∧ (∀ ids, (batchRemove s ids).1.status = s.status) ∧
+    (∀ js lv ch, (update s js lv ch).1.status = s.status) ∧ (∀ b, (setBlind s b).status = s.status) ∧
+    (release s).status = s.status ∧ (start s).status = s.status ∧ (∀ gc ps, (setup s gc ps).status = s.status) ∧
+    (∀ id, (finish s id).1.status = s.status) ∧ (autoJoinStale s).status = s.status :=
+  ⟨fun j ch => congrArg Prod.fst (lc_reserve s j ch), fun id => congrArg Prod.fst (lc_join s id),
+   fun id c => congrArg Prod.fst (lc_redeem s id c), fun ids => congrArg Prod.fst (lc_batchRemove s ids),
+   fun js lv ch => congrArg Prod.fst (lc_update s js lv ch), fun _ => rfl, rfl, rfl, fun _ _ => rfl,
+   fun id => congrArg Prod.fst (lc_finish s id), congrArg Prod.fst (lc_foldl_join s.players s)⟩
+
+/-- **C07 — a new hand never opens while another is unsettled, as a statement about the status**: the gate's callback on a
+table that is `playing` or `settled` (and holds its hand) changes neither status nor count. -/
+theorem C07_no_second_hand (s : State) (ch : Option Int) (ok : Bool) (hi : LCInv s)
+    (hp : s.status = .playing ∨ s.status = .settled) :
+    (gateFire s ch ok).2 = .nothing ∧ (gateFire s ch ok).1.status = s.status ∧
+    (gateFire s ch ok).1.gameCount = s.gameCount := by
+  have hg : (gateReady s).hasGame = true := hi hp
+  unfold gateFire openGuard
+  by_cases h1 : (gateReady s).gate.length ≤ 1
+  · simp [h1]; exact ⟨rfl, rfl⟩
+  · by_cases h2 : ((gateReady s).released || (gateReady s).status == .closed) = true
+    · simp [h1, h2]; exact ⟨rfl, rfl⟩
+    · simp [h1, h2, hg]; exact ⟨rfl, rfl⟩
+
+-- non-vacuity: a whole turn of the cycle on the example table is a timely history; its statuses are the cycle's
+def exCycle : List Event :=
+  [.reserve { id := 1, chips := 500, seat := 0 } [], .reserve { id := 2, chips := 300, seat := 2 } [], .join 1, .join 2,
+   .start, .setup 0 [(1, 0), (2, 1)], .fire (some 0) true, .redeem 1 100, .settle [(0, 50), (1, -50)], .contReset,
+   .tick false, .finish 1, .finish 2, .fire none true]
+
+example : AllTimely (create exCfg exBlind) exCycle := by decide
+example : (exCycle.foldl (fun (acc : State × List Status) e => (step acc.1 e, acc.2 ++ [(step acc.1 e).status]))
+    (create exCfg exBlind, [])).2 =
+    [.created, .created, .created, .created, .created, .created, .playing, .playing, .settled, .standby, .standby,
+     .standby, .standby, .playing] := by decide
+example : LCInv exTable ∧ LCInv (gateFire exTable (some 0) true).1 ∧
+    (gateFire exTable (some 0) true).1.status = .playing := by decide
 
 /-- the delayed handler of `continueGame` looks for a closed, then for a released table *when it runs* — its first two
 statements (regenerated from table_engine_stage.go); `nextMove` does the same -/
